@@ -6,8 +6,8 @@ import TensorModel.Proofs.FreshCopy
 
   * `concat_shape`, `stack_shape`, `repeat_shape`: the model of the shape calculators
     (`Shape.Concat`, the head of `StackDense`, `Shape.Repeat`) gives S's shape and refuses — with an
-    *error*, never a panic — exactly where S refuses. `concat_shape` is `_partial` on an explicit
-    `Excl_*` region, with a `_full_fails` witness inside the region.
+    *error*, never a panic — exactly where S refuses (`concat_shape`: for every axis argument, `AllAxes` read as the
+    library's interface defines it).
   * `simpleStack_spec`: the block-copy kernels of `denseSimpleStack` (both the `case 0` and the
     `default` loop nest) on row-major listings of equally shaped operands produce exactly the element
     list of S's `stack`, for every rank and every axis position.
@@ -45,26 +45,34 @@ open TM TM.Asm
 
 /-! ## shape calculators -/
 
-/-- `Shape.Concat` = shape of S's `concatenate`, and it refuses (error) exactly when S refuses —
-    outside finding F63 (`axis = AllAxes` is silently read as axis 0). -/
-theorem concat_shape_partial (s : Shape) (axis : Int) (ss : List Shape)
-    (hx : Excl_concatAllAxes axis = false) :
-    Agrees (shapeConcat s axis ss) (if axis < 0 then none else concatShape axis.toNat (s :: ss)) := by
-  apply shapeConcat_agrees
-  simpa [Excl_concatAllAxes] using hx
+/-- `shapeConcat` reads `AllAxes` exactly as it reads axis 0 (`if axis == AllAxes { axis = 0 }`). -/
+theorem shapeConcat_allAxes (s : Shape) (ss : List Shape) : shapeConcat s (-1) ss = shapeConcat s 0 ss := by
+  simp [shapeConcat]
 
-def concat_shape_full : Prop :=
-  ∀ (s : Shape) (axis : Int) (ss : List Shape),
-    Agrees (shapeConcat s axis ss) (if axis < 0 then none else concatShape axis.toNat (s :: ss))
+/-- `Shape.Concat` = shape of S's `concatenate` for every axis argument, and it refuses — with an error,
+    never a panic — exactly when S refuses. The axis is read as the library's interface defines it
+    (`specConcatAxis`: `AllAxes` names the outermost axis, other negative numbers are no axes); since the
+    operation normalises the axis the same way (F63 repaired) there is no excluded region any more. -/
+theorem concat_shape (s : Shape) (axis : Int) (ss : List Shape) :
+    Agrees (shapeConcat s axis ss) (specConcatShape axis (s :: ss)) := by
+  by_cases h : axis = -1
+  · subst h
+    rw [shapeConcat_allAxes]
+    have := shapeConcat_agrees s 0 ss (by decide)
+    simpa [specConcatShape, specConcatAxis] using this
+  · have := shapeConcat_agrees s axis ss h
+    have hb : (axis == -1) = false := by simpa using h
+    simp only [specConcatShape, specConcatAxis, hb, Bool.false_eq_true, if_false]
+    by_cases hn : axis < 0
+    · simpa [hn] using this
+    · simpa [hn] using this
 
-/-- F63: `(2,3)` and `(2,3)` along axis `-1`: the calculator answers `(4,3)`, S refuses. -/
-theorem concat_shape_full_fails : ¬ concat_shape_full := by
-  intro h
-  have := h [2, 3] (-1) [[2, 3]]
-  obtain ⟨tag, ht⟩ := this
-  have e : shapeConcat [2, 3] (-1) [[2, 3]] = .ok [4, 3] := rfl
-  have := e.symm.trans ht
-  cases this
+/-- non-vacuity: the former F63 witness — `(2,3)` and `(2,3)` along `AllAxes` give `(4,3)`, along `-2` an error;
+    axis 1 gives `(2,6)`; differing off-axis extents are refused. -/
+example : shapeConcat [2, 3] (-1) [[2, 3]] = .ok [4, 3] ∧ specConcatShape (-1) [[2, 3], [2, 3]] = some [4, 3] := ⟨rfl, rfl⟩
+example : shapeConcat [2, 3] (-2) [[2, 3]] = .error (.err "invalidAxis") ∧ specConcatShape (-2) [[2, 3], [2, 3]] = none := ⟨rfl, rfl⟩
+example : shapeConcat [2, 3] 1 [[2, 3]] = .ok [2, 6] ∧ specConcatShape 1 [[2, 3], [2, 3]] = some [2, 6] := ⟨rfl, rfl⟩
+example : specConcatShape (-1) [[2, 3], [2, 4]] = none ∧ specConcatShape 0 [[2, 3], [2, 4]] = none := ⟨rfl, rfl⟩
 
 /-- The head of `StackDense` (axis test, comparison of the operands' shapes, new shape) = shape of
     S's `stack`, refusing — with an error: negative axis, axis past the rank, an operand of another
